@@ -3,9 +3,16 @@
 run the quick check of the property it targets, and record what caught it in meta.json."""
 import json, os, subprocess, sys, re
 V = '/verif'
-only = sys.argv[1:]
+args = sys.argv[1:]
+scratch = '--scratch' in args          # work on a scratch copy of /repo (when /repo must not be touched)
+only = [a for a in args if a != '--scratch']
+REPO = '/repo'
+if scratch:
+    REPO = '/tmp/seedrun_repo'
+    subprocess.run(['rm', '-rf', REPO]); subprocess.run(['cp', '-a', '/repo', REPO])
+    os.environ['VERIF_REPO'] = REPO
 rows = []
-if subprocess.run(['git', '-C', '/repo', 'status', '--porcelain', '--untracked-files=no'], capture_output=True, text=True).stdout.strip():
+if subprocess.run(['git', '-C', REPO, 'status', '--porcelain', '--untracked-files=no'], capture_output=True, text=True).stdout.strip():
     sys.exit('/repo has uncommitted changes')
 for d in sorted(os.listdir(V + '/seeded')):
     sd = os.path.join(V, 'seeded', d)
@@ -14,12 +21,12 @@ for d in sorted(os.listdir(V + '/seeded')):
         continue
     meta = json.load(open(mp))
     pid = meta['property']
-    if subprocess.run(['git', '-C', '/repo', 'apply', os.path.join(sd, 'patch.diff')]).returncode:
+    if subprocess.run(['git', '-C', REPO, 'apply', os.path.join(sd, 'patch.diff')]).returncode:
         rows.append((d, pid, 'patch does not apply', [])); continue
     try:
         r = subprocess.run(['python3', V + '/verif.py', 'check', pid, '--tier', 'quick'], capture_output=True, text=True, cwd=V)
     finally:
-        subprocess.run(['git', '-C', '/repo', 'checkout', '--', '.'])
+        subprocess.run(['git', '-C', REPO, 'checkout', '--', '.'])
     obs = re.findall(r'failed obligation: unit=(\S+) (\S+?): (.*)', r.stdout)
     viol = [l for l in r.stdout.split('\n') if l.startswith('VIOLATION')]
     native = sum(1 for l in viol if 'no-failing-input-found' not in l)
@@ -38,3 +45,6 @@ if os.path.exists(rp):
 for r in rows:
     old[r[0]] = list(r)
 json.dump([old[k] for k in sorted(old)], open(rp, 'w'), indent=1)
+
+if scratch:
+    subprocess.run(['rm', '-rf', REPO])
